@@ -257,6 +257,7 @@ theorem index_growth (refs : List Ref) (ri : Option Nat) (ref : Ref) :
 theorem freshen_persists (cfg : Cfg) (reqH : Header) (key : Str) (stored : Entry) (refs : List Ref) (ri : Option Nat)
     (f : Freshness) (ccReq : Directives) (mv : Bool) (start t1 : Int) (r : Resp) (b : Bool) (tr : List Step) (res : Result)
     (h304 : r.status = 304) (hval : clientPreconditionForwarded reqH stored.resp.header = false) (hid : stored.id ≠ [])
+    (hns : ccReq.noStore = false) (hns' : (parseCC r.header).noStore = false)
     (h : Run (handleValidation cfg sGET reqH key stored refs ri f ccReq mv start (.resp r t1 b) (fun r => .ret r)) tr res) :
     ∃ ok, tr = [Step.setEntry stored.id
         { stored with requestedAt := start, receivedAt := t1,
@@ -267,7 +268,7 @@ theorem freshen_persists (cfg : Cfg) (reqH : Header) (key : Str) (stored : Entry
   have hne : stored.id.isEmpty = false := by cases hs : stored.id with
     | nil => exact absurd hs hid
     | cons c cs => rfl
-  simp only [hne, Bool.false_eq_true, ↓reduceIte] at h
+  simp only [hne, hns, hns', Bool.or_self, Bool.false_eq_true, ↓reduceIte] at h
   cases h with
   | setEntry ok h1 => cases h1; exact ⟨ok, rfl, rfl⟩
 
